@@ -13,4 +13,17 @@ theorem measured_iff_test_exists (o t : Int) : measureTestBranch (some o) (some 
 theorem no_test_data (o : Int) : measureTestBranch (some o) none = 1 := by
   simp [measureTestBranch, LK.Py.truthy]
 
+/-! ### the missing-data dispositions of `PredictMetric.align_scores` -/
+
+/-- the run is rejected for missing *scores* exactly when that disposition is `error` and some rated item has no score — whatever the
+    disposition for missing truth -/
+theorem missingScores_iff (scoresAreError truthIsError : Bool) (nRatedUnscored nScoredUnrated : Nat) :
+    missingScoresBranch scoresAreError truthIsError nRatedUnscored nScoredUnrated = (if scoresAreError && decide (0 < nRatedUnscored) then 0 else 1) := by
+  cases scoresAreError <;> by_cases h : nRatedUnscored = 0 <;> simp [missingScoresBranch, LK.Py.truthy, h] <;> omega
+
+/-- …and for missing *truth* exactly when its own disposition is `error` and some scored item has no rating -/
+theorem missingTruth_iff (scoresAreError truthIsError : Bool) (nRatedUnscored nScoredUnrated : Nat) :
+    missingTruthBranch scoresAreError truthIsError nRatedUnscored nScoredUnrated = (if truthIsError && decide (0 < nScoredUnrated) then 0 else 1) := by
+  cases truthIsError <;> by_cases h : nScoredUnrated = 0 <;> simp [missingTruthBranch, LK.Py.truthy, h] <;> omega
+
 end LK.Gen.GuardsC07
